@@ -3,7 +3,14 @@
 Setup.tla (transcription of pipe.go _newPipe + newSentinelOpt + the clients' first connections) is model-checked over
 the enumerated option records x server kinds x faults x user commands; the same TLC run prints one CASE record per
 finished behaviour (inputs + predicted per-connection command log, session state, outcome) and sessiondrv replays
-every record against the real client over fakeredis.  Negative configs re-introduce four plausible defects."""
+every record against the real client over fakeredis.  Negative configs re-introduce six plausible defects.
+
+Round 2: option records carry static credentials AND the result class of AuthCredentialsFn (empty pair / password only /
+user+password / user only, answered per address), the server model checks every AUTH against the one pair the property
+allows (invariant AuthAsSupplied); injected error replies have a text (ERR, NOPERM, NOAUTH, LOADING, READONLY, WRONGPASS,
+unknown command '<itself>', unknown command 'HELLO' at non-HELLO steps) whose class - "HELLO is unknown" or "any other
+error" - is all the client model may look at.  Two "known" configs show the one oddity of the code that the invariants
+excuse: the HELLO-unknown text is honoured at every step (no Redis sends it for another command)."""
 import os, tempfile, threading
 from lib import vlib
 
@@ -12,22 +19,44 @@ LEVEL = 'model_checking'
 NEG = [('MC_setup_neg_DropSelectR2.cfg', 'NoUserCommandBeforeSetup'),
        ('MC_setup_neg_AuthLate.cfg', 'AuthLeadsResp2'),
        ('MC_setup_neg_TolerateNoEvict.cfg', 'FailedStepFailsConnection'),
-       ('MC_setup_neg_FallbackAnyHelloErr.cfg', 'FallbackOnlyOnHelloRejected')]
+       ('MC_setup_neg_FallbackAnyHelloErr.cfg', 'FallbackOnlyOnHelloRejected'),
+       ('MC_setup_neg_MixCreds.cfg', 'AuthAsSupplied'),
+       ('MC_setup_neg_NopermFallback.cfg', 'FallbackOnlyOnHelloRejected'),
+       # known oddity (see Setup.tla OddHelloText): without the excuse the model of the code as it is breaks these
+       ('MC_setup_known_hellotext_fallback.cfg', 'FallbackOnlyOnHelloRejected'),
+       ('MC_setup_known_hellotext_skip.cfg', 'FailedStepFailsConnection')]
+
+
+def text_coverage(cases):
+    """(setup command, error text) pairs hit by an injected error reply, from the CASE records themselves."""
+    cov = {}
+    for c in cases:
+        f = c['fault']
+        if f['kind'] != 'err':
+            continue
+        log = c[f['slot']]['log']
+        if f['step'] >= len(log):
+            continue
+        cmd = log[f['step']]
+        k = cmd[0] + ('-' + cmd[1] if cmd[0] in ('CLIENT', 'HELLO') and len(cmd) > 1 else '')
+        cov[(k, f['txt'])] = cov.get((k, f['txt']), 0) + 1
+    return cov
 
 
 def run(ctx):
     th = ctx.tier == 'thorough'
     binp = vlib.build('sessiondrv')
     # negative configs in the background (small: single topology, error faults only)
-    def negs():
-        for cfg, inv in NEG:
-            ctx.run_tlc('client', 'Setup', cfg, expect_violation=inv, workers=2, timeout=900)
-    neg_threads = [threading.Thread(target=negs)]
-    neg_threads[0].start()
+    def negs(part):
+        for cfg, inv in part:
+            ctx.run_tlc('client', 'Setup', cfg, expect_violation=inv, workers=2, timeout=1500)
+    neg_threads = [threading.Thread(target=negs, args=(NEG[0::2],)), threading.Thread(target=negs, args=(NEG[1::2],))]
+    for t in neg_threads:
+        t.start()
     # model checking + case generation in one run: every invariant is evaluated on every state of every case and the
     # terminal state of each behaviour is printed (one println per CASE; the line count is cross-checked below)
     cfg = 'Gen_setup_thorough.cfg' if th else 'Gen_setup_quick.cfg'
-    r = ctx.run_tlc('client', 'Setup', cfg, workers=4, timeout=3000 if th else 900, collect_cases=True, seed=ctx.seed)
+    r = ctx.run_tlc('client', 'Setup', cfg, workers=4, timeout=3000 if th else 1500, collect_cases=True, seed=ctx.seed)
     for t in neg_threads:
         t.join()
     if not r.ok:
@@ -36,14 +65,30 @@ def run(ctx):
         ctx.inconclusive.append('some CASE lines of %s could not be parsed' % cfg)
         return
     ctx.exhaustive = True
+    # the generator must really aim every error text at every kind of setup command and offer records that configure
+    # static credentials together with a provider that leaves a field empty
+    cov = text_coverage(r.cases)
+    cmds = sorted({k for k, _ in cov})
+    txts = sorted({t for _, t in cov})
+    holes = [(k, t) for k in cmds for t in txts if (k, t) not in cov and not (t == 'unkhello' and (k.startswith('HELLO') or k == 'AUTH'))]
+    mixed = sum(1 for c in r.cases if c['o']['cred'] != 'none' and c['o']['dcred'] in ('empty', 'pass', 'useronly'))
+    ctx.extra['error_text_pairs'] = len(cov)
+    ctx.extra['static_plus_partial_provider_cases'] = mixed
+    if len(txts) < 8 or holes or mixed == 0:
+        ctx.inconclusive.append('case generation lost coverage: texts=%s holes=%s static+partial-provider cases=%d' % (txts, holes[:10], mixed))
+        return
     fd, path = tempfile.mkstemp(prefix='verif-setup-', suffix='.ndjson', dir=vlib.SCRATCH_ROOT)
     os.close(fd)
     try:
         vlib.write_ndjson(path, r.cases)
-        rep = ctx.run_driver(binp, ['-mode', 'setup', '-cases', path, '-workers', '6'], timeout=3000 if th else 900)
+        rep = ctx.run_driver(binp, ['-mode', 'setup', '-cases', path, '-workers', '6'], timeout=3000 if th else 1500)
         if rep is not None and rep.get('evaluations') != len(r.cases):
             ctx.inconclusive.append('driver evaluated %s of %d cases' % (rep.get('evaluations'), len(r.cases)))
     finally:
         os.unlink(path)
     ctx.extra['cases'] = len(r.cases)
+    ctx.notes.append('error replies: %d (setup command, text) pairs over %d texts; %d cases configure static credentials together with '
+                     'a provider result that has an empty field' % (len(cov), len(txts), mixed))
+    ctx.notes.append('known oddity (excused by the invariants, shown by MC_setup_known_hellotext_*.cfg): the code honours the text '
+                     '"unknown command HELLO" at every step of both lists, not only as the answer to HELLO')
     ctx.notes.append('quick: option records within 1 single-field change of four base records plus 6 random records; thorough: within 2 changes plus 150 random records (seeded)')
